@@ -5,6 +5,7 @@ package harness
 // input; it proves nothing.
 
 import (
+	"encoding/json"
 	"context"
 	"errors"
 	"fmt"
@@ -228,4 +229,111 @@ func BcastStress(n int, budget time.Duration) StressResult {
 		b.Close(nil)
 	}
 	return res
+}
+
+// ClosureStress — real scheduler, no yield points: many goroutines make closure-carrying calls on one
+// registry (registrations, look-ups by the peer's invocations and releases overlap) while a second, raw
+// peer floods the same registry with invocations of closure ids that do not exist. Nothing may take the
+// process down; every call gets its own closure's result; every bogus invocation is answered with an error.
+func ClosureStress(seed int64, workers, perWorker int) SysRecord {
+	c := jsonRawCodec()
+	rec := SysRecord{Family: "closurestress", Config: c.Name, Seed: seed}
+	p, err := newPair(c, false, -1, seed)
+	if err != nil {
+		rec.Notes = append(rec.Notes, err.Error())
+		return rec
+	}
+	// the raw peer on a second link of A
+	actx, acancel := context.WithCancel(context.Background())
+	defer acancel()
+	reqIn, resIn := newFrameQ[json.RawMessage](), newFrameQ[json.RawMessage]()
+	var answered, wrong int64
+	var amu sync.Mutex
+	aerr := make(chan error, 1)
+	go func() {
+		aerr <- p.a.Reg.LinkMessage(actx, func(b json.RawMessage) error { return nil },
+			func(b json.RawMessage) error {
+				var r struct {
+					Err string `json:"err"`
+				}
+				json.Unmarshal(b, &r)
+				amu.Lock()
+				answered++
+				if r.Err != "closure does not exist" {
+					wrong++
+				}
+				amu.Unlock()
+				return nil
+			}, reqIn.Get, resIn.Get, c.Marshal, c.Unmarshal, nil)
+	}()
+	stop := make(chan struct{})
+	sent := 0
+	var fwg sync.WaitGroup
+	fwg.Add(1)
+	go func() {
+		defer fwg.Done()
+		for k := 0; ; k++ {
+			select {
+			case <-stop:
+				return
+			default:
+			}
+			reqIn.Put(json.RawMessage(fmt.Sprintf(`{"call":"x%d","function":"CallClosure","args":["bogus-%d",[]]}`, k, k)))
+			sent++
+			if k%64 == 0 {
+				time.Sleep(200 * time.Microsecond)
+			}
+		}
+	}()
+	ctx, cancel := context.WithTimeout(context.Background(), 30*time.Second)
+	defer cancel()
+	var wg sync.WaitGroup
+	bad := make(chan string, workers)
+	for g := 0; g < workers; g++ {
+		wg.Add(1)
+		go func() {
+			defer wg.Done()
+			for k := 0; k < perWorker; k++ {
+				want := g*100000 + k
+				v, err := p.ra.Delayed(ctx, 9000, func(ctx context.Context, x int) (int, error) { return want, nil })
+				if err != nil || v != want {
+					select {
+					case bad <- fmt.Sprintf("worker %d call %d returned (%d, %v), expected (%d, nil)", g, k, v, err, want):
+					default:
+					}
+					return
+				}
+			}
+		}()
+	}
+	close(p.w.gate(9000)) // Delayed invokes its closure at once
+	if !waitAll(&wg, 40*time.Second) {
+		rec.Hang = true
+	}
+	close(stop)
+	fwg.Wait()
+	select {
+	case m := <-bad:
+		rec.Notes = append(rec.Notes, "closure stress: "+m)
+	default:
+	}
+	waitUntil(func() bool { amu.Lock(); defer amu.Unlock(); return answered >= int64(sent) }, 5*time.Second)
+	amu.Lock()
+	if wrong != 0 || answered < int64(sent) {
+		rec.Notes = append(rec.Notes, fmt.Sprintf("closure stress: %d invocations of unknown closure ids were sent, %d answered, %d of them not with 'closure does not exist'", sent, answered, wrong))
+	}
+	rec.Calls = append(rec.Calls, SysCall{Tag: 9000, From: "A", Method: "ClosureStress", Arg: fmt.Sprintf("%d workers x %d calls, %d bogus invocations", workers, perWorker, sent), Done: true})
+	amu.Unlock()
+	if n := p.a.Reg.VerifClosureCount(); n != 0 {
+		rec.Notes = append(rec.Notes, fmt.Sprintf("CLOSURES-REMAIN count=%d after the closure stress", n))
+	}
+	acancel()
+	reqIn.Close(errors.New("closed"))
+	resIn.Close(errors.New("closed"))
+	select {
+	case <-aerr:
+	case <-time.After(3 * time.Second):
+	}
+	p.close()
+	return rec
 }
